@@ -76,7 +76,7 @@ class Uniquifier:
             regex_pattern = """
                 (?P<comment> (\\n[ ]*)?<!--.*?-->([ ]*\\n)?) |
                 (?:
-                <(?P<tagname> NAMES)
+                <(?P<tagname> (?a:NAMES))
                 (?P<vlist> \\s[^<>]*)?
                 (/>
                  |
